@@ -147,3 +147,13 @@ Proof.
   exists []. unfold x_new, aec_den.
   destruct pre as [| | | | |[|ma [|mi [|pv [|[[| | | |ps|]|] [|? ?]]]]]]; constructor.
 Qed.
+
+(* the one-pass form the harness evaluates *)
+Lemma count_key_app k a b : count_key k (a ++ b) = count_key k a + count_key k b.
+Proof. unfold count_key. induction a as [|x a IH]; cbn [app fold_right]; [lia|]. rewrite IH. lia. Qed.
+Theorem log_aec_count ops : forall x k, log_aec x ops k = count_key k (log_aec_keys x ops).
+Proof.
+  induction ops as [|o ops IH]; intros x k; cbn [log_aec log_aec_keys]; [reflexivity|].
+  rewrite count_key_app, IH. f_equal. destruct o; try reflexivity. unfold new_aec.
+  destruct (N.testbit (h_other (b_bp (x_blk x))) 1); [|reflexivity]. cbn [count_key fold_right]. lia.
+Qed.
